@@ -480,6 +480,17 @@ func runWallet(r *evid.Run, dir string, idx int, cs int64) {
 			// restart: after the resync the production trigger re-offers in a detached goroutine
 			want := unminedSet(f)
 			f.Stop()
+			// half of the time a block arrives right behind the resynchronisation (the
+			// backend is one block ahead of where the rescan finished when the wallet
+			// gets to handle its end): the re-offer is still due
+			if rg.Intn(2) == 0 {
+				ch.AfterRescan = func() {
+					ch.AfterRescan = nil
+					ch.Extend()
+					ch.NotifyConnect(int(ch.Height()))
+				}
+				r.Hit("restarts-with-a-block-right-behind-the-resync", 1)
+			}
 			if err := f.Open(f.Window, true); err != nil {
 				if errors.Is(err, wh.ErrNotSynced) {
 					r.Inconclusive("resync watchdog")
